@@ -26,6 +26,9 @@ func TestC15(t *testing.T) {
 			// good candidates for the optimizer's mapping
 			a := Bytes(rapid.Uint64().Draw(rt, "tieA"), 2*BlockSize+rapid.IntRange(0, 1000).Draw(rt, "tieAextra"))
 			b := Bytes(rapid.Uint64().Draw(rt, "tieB"), 2*BlockSize+rapid.IntRange(0, 1000).Draw(rt, "tieBextra"))
+			if rapid.Bool().Draw(rt, "tieequalsizes") && len(a) != len(b) {
+				b = Bytes(uint64(len(a))+77, len(a)) // the two candidates also have the same size
+			}
 			pair.Old["tie/a.bin"], pair.Old["tie/b.bin"] = &Entry{Kind: KFile, Data: a}, &Entry{Kind: KFile, Data: b}
 			pair.New["tie/a.bin"], pair.New["tie/b.bin"] = &Entry{Kind: KFile, Data: a}, &Entry{Kind: KFile, Data: b}
 			z := append(append(append([]byte{}, b[:BlockSize]...), []byte("fresh data in the middle")...), a[:BlockSize]...)
